@@ -112,6 +112,8 @@ CLAIMED.update({
             "rank-1 scaffold made from its own Pretext scaffold, named <prefix><k>[_unloc_<m>] (one more hypothesis, shown necessary). "
             "TAGGED maps: C02_completion_tagged -- remap_to_input completes on every tiling map whose tags are consistent per Pretext scaffold (a decidable "
             "condition on the tags alone: one name tag, one haplotype tag, Primary only with a haplotype tag, Unloc only when painted), each clause shown necessary. "
+            "TWO HAPLOTYPES: C02_two_haplotype_maps_complete -- the whole pipeline completes on every well-paired (h1 h2 h1 h2 ...) painted two-haplotype tiling map; "
+            "the pairing is needed (C02_two_haplotype_maps_need_pairing). C02_cores_land_any_tags: whenever the run completes, with ANY tags, every core lands as one block. "
             "Coq theorems about the remapping stage (remap_to_input), no size bound, for EVERY PretextView-model edit script and more: "
             "(1) C02_completion: for every map that tiles every scaffold it shows (ascending baits cover 1..E without hole or overlap, "
             "pieces >= 2 texels when a scaffold is shown in more than one piece, any order / orientation / grouping, any subset of "
